@@ -532,6 +532,19 @@ Proof. intros v k p. destruct v; cbn [result_of snd filter decisionb decision_of
 Lemma nth_app_len : forall (A : Type) (a b : list A) (x d : A), nth (length a) (a ++ x :: b) d = x.
 Proof. intros A a b x d. induction a as [|y t IH]; [reflexivity|exact IH]. Qed.
 
+Lemma decision_concat_about : forall k l,
+  filter (decisionb k) (concat l) = filter (decisionb k) (concat (map (filter (aboutb k)) l)).
+Proof.
+  intros k l. induction l as [|x t IH]; [reflexivity|].
+  cbn [map concat]. rewrite !filter_app. rewrite IH. f_equal.
+  clear. induction x as [|o t IH]; [reflexivity|]. cbn [filter].
+  destruct (aboutb k o) eqn:Ea.
+  - cbn [filter]. destruct (decisionb k o); [f_equal|]; exact IH.
+  - assert (Ed : decisionb k o = false).
+    { destruct o; try reflexivity; unfold aboutb in Ea; cbn [about] in Ea; exact Ea. }
+    rewrite Ed. exact IH.
+Qed.
+
 (* RESOLUTION: the first head at which the verdict for (k, p) is neither "wait" nor "retry" decides the entry, once and for all *)
 Theorem resolution : forall c s k p pre n safe orc post,
   NoDup (keys s) -> find k s = Some p ->
@@ -552,16 +565,7 @@ Proof.
   rewrite Hgone in R1, R2. rewrite (fate_none c k post Hpost) in R1, R2. cbn [fst snd] in R1, R2.
   repeat apply conj.
   - unfold decisions.
-    assert (E : filter (decisionb k) (concat (snd r)) = filter (decisionb k) (concat (map (filter (aboutb k)) (snd r)))).
-    { generalize (snd r). intros l. induction l as [|x t IH]; [reflexivity|].
-      cbn [map concat]. rewrite !filter_app. rewrite IH. f_equal.
-      clear. induction x as [|o t IH]; [reflexivity|]. cbn [filter].
-      destruct (aboutb k o) eqn:Ea.
-      - cbn [filter]. destruct (decisionb k o); [f_equal|]; exact IH.
-      - assert (Ed : decisionb k o = false).
-        { destruct o; try reflexivity; unfold aboutb in Ea; cbn [about] in Ea; exact Ea. }
-        rewrite Ed. exact IH. }
-    rewrite E, R1. rewrite concat_app, filter_app, Q2. cbn [app concat]. rewrite filter_app.
+    rewrite decision_concat_about, R1. rewrite concat_app, filter_app, Q2. cbn [app concat]. rewrite filter_app.
     rewrite decisions_result. rewrite decision_filter_concat_map_nil. apply app_nil_r.
   - assert (E : filter (aboutb k) (nth (length pre) (snd r) []) = nth (length pre) (map (filter (aboutb k)) (snd r)) []).
     { change (@nil out) with (filter (aboutb k) []) at 2. rewrite map_nth. reflexivity. }
@@ -579,16 +583,7 @@ Proof.
   destruct (fate_quiet c k p ops Hq) as [Q1 [Q2 _]].
   split; [rewrite R2; exact Q1|].
   unfold decisions.
-  assert (E : forall l, filter (decisionb k) (concat l) = filter (decisionb k) (concat (map (filter (aboutb k)) l))).
-  { intros l. induction l as [|x t IH]; [reflexivity|].
-    cbn [map concat]. rewrite !filter_app. rewrite IH. f_equal.
-    clear. induction x as [|o t IH]; [reflexivity|]. cbn [filter].
-    destruct (aboutb k o) eqn:Ea.
-    - cbn [filter]. destruct (decisionb k o); [f_equal|]; exact IH.
-    - assert (Ed : decisionb k o = false).
-      { destruct o; try reflexivity; unfold aboutb in Ea; cbn [about] in Ea; exact Ea. }
-      rewrite Ed. exact IH. }
-  rewrite E, R1. exact Q2.
+  rewrite decision_concat_about, R1. exact Q2.
 Qed.
 
 (* ================================================================== ranges: uint64 arithmetic does not wrap *)
